@@ -8,7 +8,7 @@ from .. import core, sx
 from . import rustside as rs
 
 THEOREMS = ['C01.verify_sound', 'C01.verifyBytes_sound', 'C01.verifyBytes_sound_empty', 'C01.proved_terms_valid',
-            'C01.schemas_tied', 'C01.rust_schemas_valid', 'C01.rust_judgements_tied', 'C01.rust_substitution_tied', 'C01.pinned_substitution_unsound',
+            'C01.schemas_tied', 'C01.rust_schemas_valid', 'C01.rust_judgements_tied', 'C01.rust_substitution_tied', 'C01.pinned_substitution_unsound', 'C01.rust_verify_text_sound',
             'eFresh_sound', 'sFresh_sound', 'pos_neg_sound', 'applyESubst_sem', 'applySSubst_sem', 'inst_sem',
             'step_inv']
 
